@@ -45,6 +45,45 @@ def converter_stream_stage(run, prop, tier, replay, stride):
     return run
 
 
+def server_mapping_stage(run, tier, replay):
+    """'A server started with the same transform flags exposes the same coordinate mapping as a conversion with them':
+    the flip / swap instances of MC_Server against the real binary; only status and body are collected here."""
+    if replay:
+        return run
+    d = C.outdir("C06_srv")
+    hb = C.build_harness()
+    vb = C.build_binary()
+    allc = os.path.join(d, "cases_all.ndjson")
+    cases = os.path.join(d, "cases.ndjson")
+    mc = C.run_tlc("mc/MC_Server.tla", "mc/MC_C05_quick.cfg", "C06_mc_server", workers=8, replay_out=allc, timeout=2400)
+    C.require_clean(mc, "MC_Server")
+    run.add_tlc(mc)
+    keep = []
+    for c in C.read_ndjson(allc):
+        if (c["flags"]["flip"] or c["flags"]["swap"]) and c["header"] == "" and c["src"]["id"] in ("vpn", "mb", "pm", "tarsrc", "vpngg") \
+                and all(c[k]["kind"] == "num" for k in ("z", "x", "y")):
+            keep.append(c)
+    with open(cases, "w") as f:
+        for c in keep:
+            f.write(json.dumps(c) + "\n")
+    t = os.path.join(d, "trace.ndjson")
+    s = C.run_harness(hb, ["server", "TILES", vb, cases, t, C.scratch_dir("C06srv")], timeout=3000)
+    v = C.validate_trace("trace/Trace_Server.tla", "trace/Trace_Server.cfg", "C06_trace_server", t, timeout=1800)
+    run.add_tlc(v)
+    for (line, fl) in v.fails:
+        for cl in fl["clauses"]:
+            if cl not in ("status_present", "status_absent", "body", "dropped_connection"):
+                continue
+            q = fl["q"]
+            rec = {"clause": "server_" + cl, "flip": q["flags"]["flip"], "swap": q["flags"]["swap"], "hasgeo": 0,
+                   "target": fl["target"], "resp": fl["resp"], "case": {"q": q}}
+            run.failure(rec)
+    run.traces += 1
+    run.evaluations += s["cases"]
+    run.extra.update({"server_requests_with_transform_flags": s["cases"]})
+    return run
+
+
 def run(tier, seed, replay):
     run = C.Run("C06", tier, seed, "model_checking")
     d = C.outdir("C06")
@@ -108,8 +147,10 @@ def run(tier, seed, replay):
                 "x border; each converting reader is built the way the CLI does, and coverage, walk of the coverage, lookups of all "
                 "coordinates of levels 0..3, box streams and (every 8th case) the file written by the real writer are judged by TLC; "
                 "every 5th case (thorough: every case) is also run through the real `versatiles convert` command line "
-                "(options rendered as typed, source file from the independent encoder, output decoded independently). "
+                "(options rendered as typed, source file from the independent encoder, output decoded independently); the real server "
+                "with --flip-y / --swap-xy answers coordinate requests with the tile at the pre-image. "
                 "non-trivial = case with a transform flag, >= 2 tiles and a zoom or geographic selection")
     run.extra = {"cases": s["cases"], "cli_runs": sc["cases"], "cli_nonzero_exit": sc["nonzero_exit"]}
+    server_mapping_stage(run, tier, replay)
     run.assumptions = ["f64 inverse Mercator of the harness exact to ~1e-15 tiles at levels <= 4 (geo corners are never within the guard of a boundary unless exactly on it)"]
     return run.finish()
